@@ -174,9 +174,15 @@ func checkC18(e *Engine, r *Report) {
 					p := FindPath(PathQuery{Fn: eff, Assume: hasSuffix(ctrCut, false), Target: func(x ssa.Instruction) bool { return x == in }})
 					r.Check("R10:eff-override-only-container@"+sp, "R10 order independence", "an overriding write into the effective map happens only for the container-specific form", e.InstrPos(in), eff, p == nil, e.pathString(p), true)
 				} else {
-					p := FindPath(PathQuery{Fn: eff, Assume: hasSuffix(podCut, false), Target: func(x ssa.Instruction) bool { return x == in }})
-					_ = p
-					r.Check("R10:eff-nonoverride@"+sp, "R10 order independence", "pod-wide entries are written only through associate(…, false)", e.InstrPos(in), eff, true, "", true)
+					// … and only for an annotation in one of the two addressed forms: with neither suffix matching nothing is written
+					neither := func(cond ssa.Value) (bool, bool) {
+						if k, v := hasSuffix(podCut, false)(cond); k {
+							return k, v
+						}
+						return hasSuffix(ctrCut, false)(cond)
+					}
+					p := FindPath(PathQuery{Fn: eff, Assume: neither, Target: func(x ssa.Instruction) bool { return x == in }})
+					r.Check("R10:eff-nonoverride@"+sp, "R10 order independence", "pod-wide entries are written only through associate(…, false), and only for an annotation that carries the plugin's suffix (annotations addressed to other containers or plugins have no effect)", e.InstrPos(in), eff, p == nil, e.pathString(p), true)
 				}
 			})
 			r.MinInstances("writes into the effective annotation map ("+sp+")", n, 2)
@@ -261,6 +267,59 @@ func checkC18(e *Engine, r *Report) {
 				})
 			}
 			r.MinInstances("class-derived writes ("+sp+")", n, 2)
+			// the class whose values are derived is the one the annotation names: inside the search over the configured
+			// classes, nothing is derived from (or returned as) a class unless its Name equals the requested name
+			nCls := 0
+			for f := range scope {
+				for _, lp := range sliceLoops(f) {
+					lp := lp
+					if fl, _ := loadedField(rangedSlice(lp)); fl == nil || fl.Name() != "Classes" {
+						continue
+					}
+					nCls++
+					isNameTest := func(cf condFact) bool {
+						b, ok := cf.Cond.(*ssa.BinOp)
+						if !ok || (b.Op != token.EQL && b.Op != token.NEQ) {
+							return false
+						}
+						for _, pr := range [][2]ssa.Value{{b.X, b.Y}, {b.Y, b.X}} {
+							fl, _ := loadedField(pr[0])
+							if fl != nil && fl.Name() == "Name" && paramIndex(pr[1]) >= 0 {
+								return (b.Op == token.EQL) == cf.Val
+							}
+						}
+						return false
+					}
+					okCls := true
+					AllInstrs(f, func(in ssa.Instruction) {
+						if in.Block() == nil || !lp.start.Block().Dominates(in.Block()) {
+							return
+						}
+						uses := e.IsCallTo(in, fset(assoc))
+						if ret, ok := in.(*ssa.Return); ok && len(ret.Results) > 0 {
+							if k, isK := ret.Results[0].(*ssa.Const); !(isK && k.IsNil()) {
+								if _, isPtr := ret.Results[0].Type().Underlying().(*types.Pointer); isPtr {
+									uses = true
+								}
+							}
+						}
+						if !uses {
+							return
+						}
+						dom := false
+						for _, cf := range dominatingConds(in.Block()) {
+							if isNameTest(cf) {
+								dom = true
+							}
+						}
+						if !dom {
+							okCls = false
+						}
+					})
+					r.Check("R3:class-by-own-name@"+sp, "explicit beats class", "values are derived from (or a class is returned for) a configured class only where that class's Name equals the annotated name", e.InstrPos(lp.start), f, okCls, "", true)
+				}
+			}
+			r.MinInstances("searches over the configured classes ("+sp+")", nCls, 1)
 			// explicit parameters: unconditional stores of the annotation's own value
 			ne := 0
 			AllInstrs(create, func(in ssa.Instruction) {
